@@ -17,8 +17,11 @@ func keySource(tb *TermBuilder, k *Term) string {
 		return "committee"
 	case isCall(k, "native/roles.GetDesignatedByRole"):
 		// roles.NeoFSAlphabet == 16
-		if len(k.Args) >= 1 {
-			if r, ok := k.Args[0].IntConst(); ok && r == 16 {
+		// the list designated as of the block being built: every site in the repository asks
+		// for CurrentIndex()+1 (a designation made in block N is recorded under N+1)
+		if len(k.Args) == 2 {
+			next := tb.binop(token.ADD, tb.mk("call", "native/ledger.CurrentIndex", 0), tb.constInt(1), intType)
+			if r, ok := k.Args[0].IntConst(); ok && r == 16 && k.Args[1] == next {
 				return "fsalphabet"
 			}
 		}
